@@ -147,4 +147,26 @@ def gen_pel(rng, u, nopt=None, creator=None, sev=None, flags=None, fixtures=True
                 if sid.decode("latin-1") not in tables.sectionNames:
                     break
             secs.append(pm.sec_generic(rng, u, sid))
+    if secs and rng.random() < 0.12:
+        # byte-identical duplicates (same type, same content) - adjacent or separated; each still gets its own entry
+        dup = rng.choice([s for s in secs if s.sid != b"PS"] or secs)
+        if dup.sid != b"PS":
+            for _ in range(rng.choice([1, 1, 2])):
+                secs.insert(rng.randrange(len(secs) + 1), dup)
+            if dup.name == "Unknown" and rng.random() < 0.5:
+                # another unknown id with the very same version / sub-type / component / payload
+                twin = pm.Sec(bytes([dup.sid[0] ^ 1, dup.sid[1]]), dup.ver, dup.sub, dup.comp, dup.body, dup.kind, dict(dup.m))
+                twin.expect, twin.ident, twin.payload = dup.expect, dup.ident, dup.payload
+                if twin.name == "Unknown":
+                    secs.append(twin)
+        if primary_first(secs):
+            pass
     return pm.Pel(creator, ph, uh, secs)
+
+
+def primary_first(secs):
+    """keep a primary SRC, when it was generated first, in first position"""
+    for i, s in enumerate(secs):
+        if s.sid == b"PS" and i != 0:
+            return False
+    return True
